@@ -504,3 +504,47 @@ pub const SPECIAL_LINES: &[(&str, &str)] = &[
     ("8/P6k/8/8/8/8/7K/8 w - - 0 1", "a7a8r h7g7"),
     ("r3k2r/1P6/8/8/8/8/8/4K3 w kq - 0 1", "b7a8q"),
 ];
+
+/// Forced mates in three plies whose first move must be an under-promotion (`wsim findunder`).
+pub const UNDERPROMOTION_MATES: &[(&str, &str)] = &[
+    ("8/1R2P3/7k/5R2/8/3P3B/6K1/4N3 w - - 0 1", "e7e8r"),
+    ("8/1P3B2/k7/N5K1/R7/2P5/8/8 w - - 0 1", "b7b8r"),
+    ("8/2P5/1N6/1k6/1N6/K7/3R4/1N6 w - - 0 1", "c7c8n"),
+    ("n3k3/8/8/4n2P/8/7K/4pb1P/3b4 b - - 0 1", "e2e1n"),
+    ("8/1P5r/k7/n2R4/8/8/5K2/1R6 w - - 0 1", "b7b8n"),
+    ("5R2/3P4/1P2k3/7K/3P4/8/8/R7 w - - 0 1", "d7d8r"),
+    ("2q1n3/8/8/1k6/3p3b/1K6/p7/6n1 b - - 0 1", "a2a1r"),
+    ("7K/5k2/8/8/8/p4p2/1p2b3/8 b - - 0 1", "b2b1r"),
+    ("8/3n4/2kn4/5r2/2B5/2bK4/2r1p3/8 b - - 0 1", "e2e1n"),
+    ("8/4P3/R1p4k/8/8/R1Q2PN1/3K4/8 w - - 0 1", "e7e8n"),
+    ("8/4k1P1/6K1/8/3R4/8/8/4N3 w - - 0 1", "g7g8r"),
+    ("8/P1P5/7p/kr1R4/7Q/K7/R7/2N5 w - - 0 1", "c7c8n"),
+    ("8/8/7q/8/8/p3pnK1/1k4p1/8 b - - 0 1", "g2g1n"),
+    ("1n6/P7/k7/3R4/8/3N2B1/8/6K1 w - - 0 1", "a7b8r"),
+    ("6b1/1P2k2P/7Q/8/B7/7K/8/8 w - - 0 1", "h7g8b"),
+    ("8/4b1r1/8/8/8/8/1k2p2K/5B2 b - - 0 1", "e2f1r"),
+    ("8/1N4P1/1N6/8/4B3/8/2K4P/k7 w - - 0 1", "g7g8r"),
+    ("8/8/2b5/4r3/7K/3p1b2/k6p/8 b - - 0 1", "h2h1n"),
+    ("8/2k1b3/1r6/8/8/7K/5pp1/7b b - - 0 1", "g2g1r"),
+    ("8/5b1b/5P2/1b6/k7/8/pK2p3/8 b - - 0 1", "e2e1b"),
+    ("1b6/k5r1/8/1p6/8/7K/4p3/8 b - - 0 1", "e2e1r"),
+    ("7K/B1P5/3k4/8/2B2P2/8/4Q3/7N w - - 0 1", "c7c8r"),
+    ("3n4/8/5p1n/8/4b2K/5kn1/5p2/8 b - - 0 1", "f2f1r"),
+    ("6N1/3K1P2/8/7k/R7/P4P2/8/3Q4 w - - 0 1", "f7f8n"),
+    ("2R5/5P2/4k3/8/1N1Q4/8/8/5K2 w - - 0 1", "f7f8r"),
+    ("7n/4r3/k7/2r5/5K2/8/5pb1/8 b - - 0 1", "f2f1n"),
+    ("8/2Q3P1/5k2/8/3K3N/8/8/8 w - - 0 1", "g7g8r"),
+    ("8/P4R2/1k6/8/P1K5/8/4N2N/8 w - - 0 1", "a7a8r"),
+    ("8/8/1p6/3nk3/5N2/3Kp1B1/4pN2/1r3n2 b - - 0 1", "e2e1n"),
+    ("8/8/4p3/8/4qk2/8/5p1K/6N1 b - - 0 1", "f2f1n"),
+    ("8/6q1/3b4/1k6/6N1/1K6/p1p3b1/8 b - - 0 1", "a2a1n"),
+    ("k7/8/8/3p4/p7/2b1K3/5p1q/8 b - - 0 1", "f2f1r"),
+    ("1r1b1Nn1/2p5/3k3N/7B/8/K7/1p2r3/8 b - - 0 1", "b2b1n"),
+    ("8/P4P2/5PR1/7k/5K2/8/2P5/8 w - - 0 1", "f7f8n"),
+    ("n7/7K/2k2b2/8/6r1/n7/2p2n2/8 b - - 0 1", "c2c1r"),
+    ("8/8/1q6/5B2/b4P2/8/K2p4/6k1 b - - 0 1", "d2d1n"),
+    ("8/3R1P2/5Nk1/8/5K2/8/5N2/8 w - - 0 1", "f7f8n"),
+    ("5n2/2P5/k1B5/5K1Q/8/8/3Q4/8 w - - 0 1", "c7c8n"),
+    ("8/1P5R/k2B4/8/K7/8/3R4/8 w - - 0 1", "b7b8n"),
+    ("5N2/6P1/5k2/8/5K2/4Q3/4P3/8 w - - 0 1", "g7g8r"),
+];
